@@ -1,13 +1,14 @@
 #!/bin/bash
 # tools/try_ref.sh <prop> <dir with patch.diff> : harmless-rewrite (false alarm) trial on the scratch worktree /tmp/seedrepo
 P=$1; O=$2; TAG=ref_${P}_$(basename $O)
-D=/tmp/seedrepo
+D=${SEEDREPO:-/tmp/seedrepo}
+V=${VERIF_DIR:-$(cd "$(dirname "$0")/.." && pwd)}
 [ -d $D ] || { git -C /repo worktree add -q --detach $D HEAD && cp /repo/src/aioquic/*.so $D/src/aioquic/; }
 cd $D && git checkout -q -- . && git checkout -q --detach $(git -C /repo rev-parse HEAD) || exit 2
 CC=$(grep -c '^+++ b/.*\.c$' $O/patch.diff)
 rb() { if [ "$CC" != "0" ]; then (cd $D && /venv/bin/python setup.py build_ext --inplace >/dev/null 2>&1; rm -rf build); fi; }
 git apply $O/patch.diff || { echo "APPLY-FAIL"; exit 2; }
 rb
-cd /verif && VERIF_REPO=$D ./check $P > /tmp/$TAG.log 2>&1; rc=$?
+cd $V && VERIF_REPO=$D ./check $P > /tmp/$TAG.log 2>&1; rc=$?
 cd $D && git checkout -q -- .; rb
 echo "ref $P $(basename $O): rc=$rc violations=$(grep -c VIOLATION /tmp/$TAG.log) nofail=$(grep -c no-failing-input-found /tmp/$TAG.log)"
